@@ -146,6 +146,13 @@ func buildPools(thorough bool) *pools {
 		checks = []*Node{inc(vInt(1)), numc("gt", vInt(1)), leaf("is-falsy"), rex("^a+$")}
 		whenKeys = whenKeys[:2]
 	}
+	// guards that ACCEPT nil (the value at a missing key), next to the ones
+	// above that reject it
+	guards = append(append([]*Node{}, guards...),
+		leaf("is-falsy"), not(inc(vStr("a"))), not(leaf("is-true")), typ("any"), inc(vNil()), inc(vNil(), vInt(1)))
+	if !thorough {
+		checks = append(append([]*Node{}, checks...), leaf("is-true"))
+	}
 	for _, kk := range whenKeys {
 		for _, g := range guards {
 			d1 = append(d1, when(kk[0], g, kk[1]))
